@@ -6,6 +6,7 @@ require (
 	github.com/cockroachdb/errors v0.0.0
 	github.com/cockroachdb/logtags v0.0.0-20230118201751-21c54148d20b
 	github.com/cockroachdb/redact v1.1.5
+	github.com/gogo/googleapis v1.4.1
 	github.com/gogo/protobuf v1.3.2
 	github.com/pkg/errors v0.9.1
 	google.golang.org/grpc v1.56.3
@@ -13,7 +14,6 @@ require (
 
 require (
 	github.com/getsentry/sentry-go v0.27.0 // indirect
-	github.com/gogo/googleapis v1.4.1 // indirect
 	github.com/gogo/status v1.1.0 // indirect
 	github.com/golang/protobuf v1.5.3 // indirect
 	github.com/kr/pretty v0.3.1 // indirect
